@@ -121,6 +121,59 @@ Theorem C16_order_nonneg : forall b : hbond, (0 <= hb_fo b)%Q -> (0 <= order_of 
 Proof. intro b. exact (order_nonneg b C16_table_orders). Qed.
 Print Assumptions C16_order_nonneg.
 
+(* ====================================================================== the same object, called again *)
+(* A session = calls on one object with the caller's in-place edits in between (an edit is "the molecule is now
+   this": element, charge, spin, hint, atom type, bond type/order, coordinates, atoms/bonds deleted or added).
+   run_session returns (molecule before, targets, molecule after) for every call.  For EVERY session and every call
+   in it: only plain hydrogens are appended to the molecule b the call found, and each target receives
+   n_added (count_of ... computed from b) -- from the element, charge, spin, hint and bonds the atom has at THAT
+   moment, not from what they were at an earlier call or before the edits.  (call_ok spells this out.) *)
+Theorem C16_session_counts : forall (F : Type) (o : Fops F) (steps : list (sstep F)) (m : hmol F) tr,
+  run_session o m steps = Some tr -> Forall call_ok tr.
+Proof. exact @session_counts. Qed.
+Print Assumptions C16_session_counts.
+(* ... where the molecule a call finds is exactly what the preceding step left *)
+Theorem C16_session_chained : forall (F : Type) (o : Fops F) (steps : list (sstep F)) (m : hmol F) tr,
+  run_session o m steps = Some tr -> chained o m steps tr.
+Proof. exact @run_session_chained. Qed.
+Print Assumptions C16_session_chained.
+
+(* hint-free, no negative bond order: the whole-molecule call, repeated, returns the very same molecule *)
+Theorem C16_second_call_same : forall (F : Type) (o : Fops F) (m m' : hmol F) ws ws',
+  (forall a, In a (hm_atoms m) -> ha_hint a = None) ->
+  (forall b, In b (hm_bonds m) -> (0 <= order_of b)%Q) ->
+  hadd o m (default_targets (hm_atoms m)) ws = Some m' ->
+  length ws' = length (default_targets (hm_atoms m')) ->
+  hadd o m' (default_targets (hm_atoms m')) ws' = Some m'.
+Proof. exact @hadd_again_same. Qed.
+Print Assumptions C16_second_call_same.
+(* a first call restricted to some atoms, then the whole molecule: a third call changes nothing *)
+Theorem C16_subset_then_all : forall (F : Type) (o : Fops F) (m m1 m2 : hmol F) ts ws1 ws2 ws3,
+  (forall t, In t ts -> t < length (hm_atoms m)) -> NoDup ts ->
+  (forall a, In a (hm_atoms m) -> ha_hint a = None) ->
+  (forall b, In b (hm_bonds m) -> (0 <= order_of b)%Q) ->
+  hadd o m ts ws1 = Some m1 ->
+  hadd o m1 (default_targets (hm_atoms m1)) ws2 = Some m2 ->
+  length ws3 = length (default_targets (hm_atoms m2)) ->
+  hadd o m2 (default_targets (hm_atoms m2)) ws3 = Some m2.
+Proof. exact @subset_then_all_settles. Qed.
+Print Assumptions C16_subset_then_all.
+
+(* the session  C -> call (CH4) -> the caller strips the hydrogens and turns the atom into N -> call (NH3) -> call:
+   the second call counts with nitrogen's five electrons, the third adds nothing *)
+Example C16_session_nonvacuous :
+  let w := @mkWit Q true 1%Q 1%Q (0, 1, 0)%Q (0, 0, 1)%Q in
+  let c := mkHM [mkHA 6 0 0 None 1] [] [(0, 0, 0)%Q] in
+  let n := mkHM [mkHA 7 0 0 None 1] [] [(0, 0, 0)%Q] in
+  match run_session QOps c [SCall None [w]; SEdit n; SCall None [w]; SCall None [w]] with
+  | Some [(b1, t1, a1); (b2, t2, a2); (b3, t3, a3)] =>
+      b1 = c /\ t1 = [0] /\ length (hm_atoms a1) = 5 /\
+      b2 = n /\ t2 = [0] /\ length (hm_atoms a2) = 4 /\ length (hm_bonds a2) = 3 /\
+      b3 = a2 /\ a3 = a2
+  | _ => False
+  end.
+Proof. vm_compute. repeat split. Qed.
+
 (* ====================================================================== geometry over R *)
 Local Open Scope R_scope.
 
